@@ -3,7 +3,7 @@
 # Applies the patch to a scratch worktree of /repo HEAD (/tmp/mx2/repo) and runs the checks against a scratch copy of
 # runner/ that depends on that worktree. /repo itself is never touched.
 patch="$(readlink -f "$1")"; shift
-MX=/tmp/mx2
+MX=${MX:-/tmp/mx2}
 mkdir -p $MX
 if [ ! -d $MX/repo ]; then git -C /repo worktree add --detach $MX/repo HEAD >/dev/null 2>&1 || exit 2; fi
 head=$(git -C /repo rev-parse HEAD)
